@@ -30,7 +30,7 @@ func (valdec listDecoder) Decode(dec *Decoder, p interface{}, tag byte) {
 	case TagEmpty:
 		*plist = list.New()
 	case TagList:
-		count := dec.ReadInt()
+		count := dec.ReadCount()
 		l := list.New()
 		*plist = l
 		if !dec.IsSimple() {
